@@ -65,23 +65,17 @@ impl Page {
         }
     }
 
+    pub(crate) fn is_meta(&self) -> bool {
+        self.page_type == Page::TYPE_META
+    }
+
+    // The page type is not asserted here: a damaged meta page must be rejected
+    // when the meta pages are validated, not cause a panic. See `is_meta`.
     pub(crate) fn meta(&self) -> &Meta {
-        assert_eq!(
-            self.page_type,
-            Page::TYPE_META,
-            "Did not find meta page, found {}",
-            self.page_type
-        );
         unsafe { &*(&self.ptr as *const u64 as *const Meta) }
     }
 
     pub(crate) fn old_meta(&self) -> &OldMeta {
-        assert_eq!(
-            self.page_type,
-            Page::TYPE_META,
-            "Did not find meta page, found {}",
-            self.page_type
-        );
         unsafe { &*(&self.ptr as *const u64 as *const OldMeta) }
     }
 
